@@ -283,7 +283,8 @@ Definition prop_idxgen (input obs : val) : val :=
      bucket B: likewise with offset 7 + 5 i;  dlA <> dlB, codeA <> codeB, dl >= 8
      dups: record j < ndup repeats the digest of A's record (7 j mod nA) at offset 5*10^9 + j
      samples: (bucket, i) pairs; i beyond the bucket's size names an absent key
-   observation = (tok reported byteslen structure entries (tok rest same|diff) foreach getalls)
+   observation = (tok reported byteslen structure entries (tok rest same|diff) foreach getalls
+                  (flat-structure flat-entries same|diff))
      structure: the harness's own byte-level parse found ascending codes/widths/digests and exactly
      the given (digest, offset) multiset; entries: records found by that parse;
      foreach: ForEach callbacks (multihash codec) or entries again (car-index-sorted). *)
@@ -333,7 +334,10 @@ Definition big_expected (input : val) : val :=
       VL [VT "ok"; VN (blen trailer); VT "same"]; VN total;
       VL (map (fun s => let k := big_sample_key d s in
                         v_offs (sort_N (if codec =? codec_sorted then spec_offsets_digest rs (snd k)
-                                        else spec_offsets_mh rs (fst k) (snd k)))) samples)].
+                                        else spec_offsets_mh rs (fst k) (snd k)))) samples);
+      (* the same records inserted one by one into an InsertionIndex and flattened: structure flag,
+         record count, and "answers the sampled lookups like the loaded index" flag *)
+      VL [VN 1; VN total; VT "same"]].
 
 Definition run_idxbig (input : val) : val := big_expected input.
 
@@ -349,6 +353,7 @@ Definition prop_idxbig (input obs : val) : val :=
   else if negb (is_tag (vnth 2 (vnth 5 obs)) "same") then fail "roundtrip-remarshal-differs"
   else if negb (val_eqb (vnth 6 obs) (vnth 6 want)) then fail "roundtrip-iteration-differs"
   else if negb (val_eqb (vnth 7 obs) (vnth 7 want)) then fail "lookup-differs-from-record-multiset"
+  else if negb (val_eqb (vnth 8 obs) (vnth 8 want)) then fail "flattened-insertion-index-differs-from-loaded-index"
   else VT "ok".
 
 (* ---- kind idxgenbig: an archive with more sections than LoadIndex could ever hand to idx.Load in
@@ -456,3 +461,18 @@ Definition prop_iiser (input obs : val) : val :=
 Definition run_iiread (input : val) : val :=
   v_ii_unmarshal (vL (vnth 1 input)) (vB (vnth 0 input)).
 Definition prop_iiread (input obs : val) : val := VT "ok".
+
+(* ---- kind idxload2: Load called TWICE on one sorted index ------------------------------------------
+   input = (codec, records1, records2, queries); observation = (canonical bytes, sorted GetAll per
+   query) after idx.Load(records1); idx.Load(records2).  Correspondence only: C11 and C03 speak of an
+   index loaded once; what the second Load does is stated in props/C11.v (the C11_second_load theorems). *)
+Definition run_idxload2 (input : val) : val :=
+  let codec := vN (vnth 0 input) in
+  let qs := map vB (vL (vnth 3 input)) in
+  match idx_new codec with
+  | None => VL [VT "badcodec"]
+  | Some i0 =>
+      let i := idx_load (v_recs (vnth 2 input)) (idx_load (v_recs (vnth 1 input)) i0) in
+      VL [VB (canon_bytes i); v_getalls_sorted i qs]
+  end.
+Definition prop_idxload2 (input obs : val) : val := VT "ok".
